@@ -1,3 +1,4 @@
+import Desert.Props.C03
 import Desert.Lemmas.FuelMono
 import Desert.Lemmas.TotalDec
 import Desert.Lemmas.RoundTripFull
@@ -88,6 +89,68 @@ theorem prefix_is_error_faithful (env : Env) (henv : EnvWF env) (hdec : envDecOK
   | ok r => obtain ⟨a, c'⟩ := r; rw [hr] at hsim; simp [Sim] at hsim
   | err e' => exact ⟨e', rfl⟩
   | panic w => rw [hr] at hsim; simp [Sim] at hsim
+
+
+
+/-- cross-version: a strict prefix of what one version wrote never decodes to a value under another
+(aligned) version of the definition, whenever the data carries a header (stored version ≥ 1) -/
+theorem cross_prefix_rejected (env : Env) (henv : EnvWF env) (idw idr : String) (dw dr : Decl)
+    (hfw : env.find idw = some (.record dw)) (hfr : env.find idr = some (.record dr))
+    (hal : pairAlignedB dw dr = true) (hne : dw.steps ≠ [])
+    (v : Val) (b : Bytes) (st' : EncSt) (fuel : Nat)
+    (he : enc env (.named idw) v [] = .ok (b, st')) (hu : v.utf8OK) (hd : v.depth < fuel) (k : Nat) (hk : k < b.length) :
+    ∀ a s', runAbs (dec env fuel (.named idr)) (AbsSrc.new (b.take k)) ≠ .ok (a, s') := by
+  intro a s' hok
+  have hext := run_extends_top (dec env fuel (.named idr)) (b.take k) (b.drop k) a s' hok
+  rw [List.take_append_drop] at hext
+  have hwf := run_AllWF (dec env fuel (.named idr)) _ a s' (AllWF_new _) hok
+  have hx := C03.evolution_outcome_frame env henv idw idr dw dr hfw hfr hal v [] b st' fuel he hu (by simp [StOK]) hd
+    (AbsSrc.new b) [] (WF_new _) (by simp [view_new]) rfl
+  unfold C03.Agrees at hx
+  cases hexp : expectedRead dw dr (normalize env (.named idw) v) with
+  | error e => rw [hexp] at hx; rw [hx] at hext; cases hext
+  | ok x =>
+    rw [hexp] at hx
+    obtain ⟨s2, hrun, hq⟩ := hx
+    rw [hrun] at hext
+    simp only [Outcome.ok.injEq, Prod.mk.injEq] at hext
+    obtain ⟨_, hs⟩ := hext
+    rw [hq.2 hne] at hs
+    unfold AbsSrc.ext at hs
+    cases hst : s'.stack with
+    | nil =>
+      simp only [hst] at hs
+      have hpos : s'.cur.pos = b.length := by
+        have := congrArg (fun x => x.cur.pos) hs; simpa [AbsSrc.after, AbsSrc.new] using this.symm
+      have hwin : s'.cur.window ++ b.drop k = b := by
+        have := congrArg (fun x => x.cur.window) hs; simpa [AbsSrc.after, AbsSrc.new] using this.symm
+      have hlen : s'.cur.window.length + (b.length - k) = b.length := by
+        have := congrArg List.length hwin; simpa using this
+      have := hwf.1
+      omega
+    | cons w ws =>
+      simp only [hst] at hs
+      have := congrArg (fun x => x.stack) hs
+      simp [AbsSrc.after, AbsSrc.new] at this
+      cases ws <;> simp [extStack] at this
+
+/-- … and with the driver's own budget it is exactly an error -/
+theorem cross_prefix_is_error (env : Env) (henv : EnvWF env) (hdec : envDecOKb env = true) (idw idr : String) (dw dr : Decl)
+    (hfw : env.find idw = some (.record dw)) (hfr : env.find idr = some (.record dr))
+    (hal : pairAlignedB dw dr = true) (hne : dw.steps ≠ [])
+    (v : Val) (b : Bytes) (st' : EncSt) (he : enc env (.named idw) v [] = .ok (b, st')) (hu : v.utf8OK)
+    (k : Nat) (hk : k < b.length) : ∃ e, decodeAbs env (.named idr) (b.take k) = .err e := by
+  have hty : tyOKb env (.named idr) = true := by simp [tyOKb, hfr]
+  cases hr : decodeAbs env (.named idr) (b.take k) with
+  | err e => exact ⟨e, rfl⟩
+  | panic w => exact absurd hr (decodeAbs_total env hdec _ hty (b.take k) w)
+  | ok r =>
+    exfalso
+    obtain ⟨a, s'⟩ := r
+    unfold decodeAbs at hr
+    obtain ⟨F, hF⟩ : ∃ F, F = max ((b.take k).length + 1) (v.depth + 1) := ⟨_, rfl⟩
+    have hmono := dec_fuel_mono env ((b.take k).length + 1) F (by omega) (.named idr) _ _ _ hr
+    exact cross_prefix_rejected env henv idw idr dw dr hfw hfr hal hne v b st' F he hu (by omega) k hk a s' hmono
 
 
 end C08
